@@ -44,4 +44,69 @@ def verdicts (s1 s2 : Shape3 K) (pos12 : Iso3 K) (margin prediction : K) : Optio
   mkVerdicts (detailsIntersectionTest s1 s2 pos12) (detailsDistance s1 s2 pos12)
     (detailsClosestPoints s1 s2 pos12 margin) (detailsContact s1 s2 pos12 prediction)
 
+
+/-! ## `sat_cuboid_cuboid.rs` and `intersection_test_cuboid_cuboid` (3-D), literal transliteration -/
+
+/-- `-Real::MAX` : `-(2^53 - 1) · 2^971` -/
+@[inline] def negRealMax : K := -(lit ((2 ^ 53 - 1) * 2 ^ 971 : Nat) 1)
+
+/-- `cuboid_cuboid_compute_separation_wrt_local_line(cuboid1, cuboid2, pos12, axis1)` -/
+def satSeparationWrtLine (he1 he2 : V3 K) (pos12 : Iso3 K) (axis1 : V3 K) : K × V3 K :=
+  let signum := copySign (pos12.t.dot axis1) 1
+  let axis1 := axis1.smul signum
+  let axis2 := pos12.invRot axis1.neg
+  let localPt1 := cuboidLocalSupport he1 axis1
+  let localPt2 := cuboidLocalSupport he2 axis2
+  let pt2 := pos12.act localPt2
+  ((pt2.sub localPt1).dot axis1, axis1)
+
+/-- the table of the 9 edge-edge axes of `cuboid_cuboid_find_local_separating_edge_twoway`:
+`{x, y, z} × x2`, `{x, y, z} × y2`, `{x, y, z} × z2` with `x2 = pos12 * x` etc. -/
+def satEdgeAxes (pos12 : Iso3 K) : List (V3 K) :=
+  let x2 := pos12.rot ⟨1, 0, 0⟩
+  let y2 := pos12.rot ⟨0, 1, 0⟩
+  let z2 := pos12.rot ⟨0, 0, 1⟩
+  [⟨0, -x2.z, x2.y⟩, ⟨x2.z, 0, -x2.x⟩, ⟨-x2.y, x2.x, 0⟩,
+   ⟨0, -y2.z, y2.y⟩, ⟨y2.z, 0, -y2.x⟩, ⟨-y2.y, y2.x, 0⟩,
+   ⟨0, -z2.z, z2.y⟩, ⟨z2.z, 0, -z2.x⟩, ⟨-z2.y, z2.x, 0⟩]
+
+/-- one iteration of the loop over the edge axes -/
+def satEdgeStep (he1 he2 : V3 K) (pos12 : Iso3 K) (best : K × V3 K) (axis1 : V3 K) : K × V3 K :=
+  let norm1 := axis1.norm
+  if lit 1 4503599627370496 < norm1 then
+    let r := satSeparationWrtLine he1 he2 pos12 (axis1.sdiv norm1)
+    if best.1 < r.1 then r else best
+  else best
+
+/-- `cuboid_cuboid_find_local_separating_edge_twoway` -/
+def satEdgeTwoway (he1 he2 : V3 K) (pos12 : Iso3 K) : K × V3 K :=
+  (satEdgeAxes pos12).foldl (satEdgeStep he1 he2 pos12) (negRealMax, V3.zero)
+
+/-- `Vector::ith(i, s)` -/
+@[inline] def V3.ith (i : Nat) (s : K) : V3 K := if i = 0 then ⟨s, 0, 0⟩ else if i = 1 then ⟨0, s, 0⟩ else ⟨0, 0, s⟩
+
+/-- one iteration of the loop of `cuboid_cuboid_find_local_separating_normal_oneway` -/
+def satNormalStep (he1 he2 : V3 K) (pos12 : Iso3 K) (best : K × V3 K) (i : Nat) : K × V3 K :=
+  let sign := copySign (pos12.t.get i) 1
+  let axis1 := V3.ith i sign
+  let axis2 := pos12.invRot axis1.neg
+  let localPt2 := cuboidLocalSupport he2 axis2
+  let pt2 := pos12.act localPt2
+  let separation := pt2.get i * sign - he1.get i
+  if best.1 < separation then (separation, axis1) else best
+
+/-- `cuboid_cuboid_find_local_separating_normal_oneway` -/
+def satNormalOneway (he1 he2 : V3 K) (pos12 : Iso3 K) : K × V3 K :=
+  [0, 1, 2].foldl (satNormalStep he1 he2 pos12) (negRealMax, V3.zero)
+
+/-- `intersection_test_cuboid_cuboid(pos12, cuboid1, cuboid2)` (dim3) -/
+def intersectionTestCuboidCuboid (pos12 : Iso3 K) (he1 he2 : V3 K) : Bool :=
+  let sep1 := (satNormalOneway he1 he2 pos12).1
+  if 0 < sep1 then false else
+  let pos21 := pos12.inverse
+  let sep2 := (satNormalOneway he2 he1 pos21).1
+  if 0 < sep2 then false else
+  let sep3 := (satEdgeTwoway he1 he2 pos12).1
+  decide (sep3 ≤ 0)
+
 end Model
